@@ -23,6 +23,8 @@ pub fn dispatch(ctx: &Ctx, rest: &[String]) -> i32 {
         "C05" => c05::run(ctx),
         "C06" => c06::run(ctx),
         "C11" => c11::run(ctx),
+        "C12" => c12::run(ctx),
+        "C12-child" => c12::child(ctx, rest),
         "C16" => c16::run(ctx),
         "C06-child" => c06::child(ctx, rest),
         other => {
@@ -182,6 +184,7 @@ pub mod c04;
 pub mod c05;
 pub mod c06;
 pub mod c11;
+pub mod c12;
 pub mod c16;
 pub mod hist;
 pub mod histcheck;
